@@ -27,14 +27,15 @@ package main
 //
 // Not inlined (left as an opaque call, as before): recursive helpers, variadic
 // or generic ones, helpers containing defer (their effects would move),
-// helpers of other packages, and helpers called more than once from the same
-// function (the shared body could not be told apart per call site; for those
-// the simple-helper classification and the event summaries apply).
+// helpers of other packages. A helper called several times (up to four) from
+// the same function is spliced in once per call site from a deep copy of its
+// body with fresh objects for its parameters and locals (astclone.go).
 
 import (
 	"go/ast"
 	"go/token"
 	"go/types"
+	"os"
 )
 
 type inlineFrame struct {
@@ -125,18 +126,29 @@ func virtualInline(p *Prog) int {
 		if state[fd] == 1 {
 			return s // recursion
 		}
-		if callCount[f] != 1 {
-			// called several times from this function: the shared body could not be told apart per call
-			// site by the alias-following terms; such helpers stay opaque calls (summaries / simple-helper
-			// classification still apply)
-			return s
-		}
 		cinfo := p.Pkgs[f.Pkg().Path()].TypesInfo
 		if cinfo != info {
 			return s // other package: different type information
 		}
 		if state[fd] == 0 {
 			process(fd, cinfo, depth+1)
+		}
+		// called several times from this function: every call site gets its own copy of the body, with fresh
+		// objects for the helper's parameters and locals (the shared body could not be told apart per call site)
+		body := fd.Body.List
+		objOf := func(o types.Object) types.Object { return o }
+		if callCount[f] != 1 {
+			if callCount[f] > 4 || depth > 0 || os.Getenv("GRIBILINT_SPLICE_MULTI") == "" {
+				return s // opaque call: judged by the simple-helper classification and the event summaries
+			}
+			cb, remap := cloneFuncBody(info, fd)
+			body = cb
+			objOf = func(o types.Object) types.Object {
+				if r, ok := remap[o]; ok {
+					return r
+				}
+				return o
+			}
 		}
 		sig := f.Type().(*types.Signature)
 		if len(fr.Lhs) > 0 && sig.Results().Len() != len(fr.Lhs) {
@@ -154,7 +166,7 @@ func virtualInline(p *Prog) int {
 		}
 		if fd.Recv != nil && len(fd.Recv.List) == 1 && len(fd.Recv.List[0].Names) == 1 {
 			if se, ok := ast.Unparen(call.Fun).(*ast.SelectorExpr); ok {
-				bind(info.Defs[fd.Recv.List[0].Names[0]], se.X)
+				bind(objOf(info.Defs[fd.Recv.List[0].Names[0]]), se.X)
 			}
 		}
 		i := 0
@@ -166,7 +178,7 @@ func virtualInline(p *Prog) int {
 				}
 				for _, nm := range fld.Names {
 					if i < len(call.Args) {
-						bind(info.Defs[nm], call.Args[i])
+						bind(objOf(info.Defs[nm]), call.Args[i])
 					}
 					i++
 				}
@@ -175,11 +187,11 @@ func virtualInline(p *Prog) int {
 		if fd.Type.Results != nil {
 			for _, fld := range fd.Type.Results.List {
 				for _, nm := range fld.Names {
-					fr.Results = append(fr.Results, info.Defs[nm])
+					fr.Results = append(fr.Results, objOf(info.Defs[nm]))
 				}
 			}
 		}
-		list = append(list, fd.Body.List...)
+		list = append(list, body...)
 		fr.Block = &ast.BlockStmt{Lbrace: s.Pos(), List: list, Rbrace: s.End()}
 		inlineFrames[fr.Block] = fr
 		n++
@@ -191,14 +203,21 @@ func virtualInline(p *Prog) int {
 	nTmp := 0
 	hoist := func(info *types.Info, pkg *types.Package, s ast.Stmt, depth int) []ast.Stmt {
 		var pre []ast.Stmt
-		switch s.(type) {
+		var scope ast.Node = s
+		switch x := s.(type) {
 		case *ast.ReturnStmt, *ast.AssignStmt, *ast.ExprStmt, *ast.SendStmt:
+		case *ast.RangeStmt:
+			// for … := range helper(…): the ranged expression is evaluated once, before the loop
+			scope = x.X
 		default:
 			return nil
 		}
 		for round := 0; round < 4 && depth < inlineDepth; round++ {
 			var target *ast.CallExpr
-			ast.Inspect(s, func(n ast.Node) bool {
+			if rs, isRange := s.(*ast.RangeStmt); isRange {
+				scope = rs.X
+			}
+			ast.Inspect(scope, func(n ast.Node) bool {
 				if target != nil {
 					return false
 				}
@@ -210,7 +229,7 @@ func virtualInline(p *Prog) int {
 						return false // the right operand is evaluated conditionally
 					}
 				case *ast.CallExpr:
-					if f, fd := inlinable(info, x); f != nil && state[fd] != 1 && callCount[f] == 1 && f.Type().(*types.Signature).Results().Len() == 1 {
+					if f, fd := inlinable(info, x); f != nil && state[fd] != 1 && (callCount[f] == 1 || (callCount[f] <= 4 && os.Getenv("GRIBILINT_SPLICE_MULTI") != "")) && f.Type().(*types.Signature).Results().Len() == 1 {
 						// not the statement's own top-level call (mkFrame handles those)
 						top := false
 						switch y := s.(type) {
@@ -246,7 +265,18 @@ func virtualInline(p *Prog) int {
 			if _, isFrame := fb.(*ast.BlockStmt); !isFrame {
 				break
 			}
-			if !replaceExpr(s, target, use) {
+			replaced := false
+			if rs, isRange := s.(*ast.RangeStmt); isRange {
+				if ast.Unparen(rs.X) == ast.Expr(target) {
+					rs.X = use
+					replaced = true
+				} else {
+					replaced = replaceExpr(&ast.ExprStmt{X: rs.X}, target, use)
+				}
+			} else {
+				replaced = replaceExpr(s, target, use)
+			}
+			if !replaced {
 				// could not splice the local in: undo by leaving the statement as it was (the frame is simply not used)
 				delete(inlineFrames, fb.(*ast.BlockStmt))
 				n--
@@ -438,9 +468,12 @@ func frameReturnAliases(info *types.Info, obj types.Object) []types.Object {
 			if objOfIdent(info, l) != obj {
 				continue
 			}
-			ast.Inspect(fr.Callee.Body, func(n ast.Node) bool {
+			ast.Inspect(fr.Block, func(n ast.Node) bool {
 				if _, isLit := n.(*ast.FuncLit); isLit {
 					return false
+				}
+				if b, isB := n.(*ast.BlockStmt); isB && b != fr.Block && inlineFrames[b] != nil {
+					return false // a nested frame's returns are its own
 				}
 				if rs, ok := n.(*ast.ReturnStmt); ok && i < len(rs.Results) {
 					if o := objOfIdent(info, rs.Results[i]); o != nil {
